@@ -26,6 +26,8 @@ CONSTANTS
   Modes = {}
   EqTemplates = {}
   EqWrongs = {}
+  CallKinds = {}
+  MaxCalls = 0
 INVARIANT Verdict
 INVARIANT RefusedOnlyIfWrongDimension
 CHECK_DEADLOCK FALSE
